@@ -16,7 +16,7 @@ import time
 
 HERE = os.path.dirname(os.path.dirname(os.path.abspath(__file__)))
 SEEDED = os.path.join(HERE, "seeded")
-WT = "/tmp/wt/confirm"
+WT = os.environ.get("SEED_WT", "/tmp/wt/confirm")
 ENV = dict(os.environ, CARGO_NET_OFFLINE="true")
 
 
